@@ -343,6 +343,91 @@ theorem unlocked_race_breaks : (raceUnlocked2 [] 7 1 2).2 = [.ok (), .ok ()] ∧
 
 theorem lock_is_held : Gen.C15.keyIdInsertAtomic = true := rfl
 
+/-! ## the Stronghold-backed store -/
+
+/-- **Stronghold `insert`** succeeds only for a fully private Ed25519 JWK with alg EdDSA whose secret key decodes, and then
+does exactly what the in-memory store does -/
+theorem insertS_spec (s : Store) (j : Jwk) (id : Nat) (h : (insertS s j).2 = .ok id) :
+    j.fam = .okpEd25519 ∧ j.isPrivate = true ∧ j.alg = some (some .edDSA) ∧ j.secret.isSome = true ∧
+      insertS s j = KeyStore.insert s j := by
+  have c : ∀ k a, shCompatible k a = compatible k a := fun _ _ => rfl
+  have facts : ∃ kt a, famType j.fam = some kt ∧ j.isPrivate = true ∧ j.alg = some (some a) ∧
+      compatible kt a = true ∧ j.secret.isNone = false := by
+    unfold insertS at h
+    cases hf : famType j.fam with
+    | none => rw [hf] at h; cases h
+    | some kt =>
+      rw [hf] at h
+      simp only [Gen.C15.shInsertRequiresPrivate, Gen.C15.shInsertRequiresAlg, Gen.C15.shInsertExpandsSecret,
+        Bool.true_and, Bool.not_true, Bool.false_eq_true, ↓reduceIte, c] at h
+      by_cases hp : (!j.isPrivate) = true
+      · rw [if_pos hp] at h; cases h
+      · rw [if_neg hp] at h
+        cases ha : j.alg with
+        | none => rw [ha] at h; cases h
+        | some x =>
+          rw [ha] at h
+          cases x with
+          | none => cases h
+          | some a =>
+            simp only at h
+            by_cases hc : compatible kt a = true
+            · rw [if_pos hc] at h
+              simp only at h
+              by_cases hs : j.secret.isNone = true
+              · rw [if_pos hs] at h; cases h
+              · exact ⟨kt, a, rfl, by simpa using hp, rfl, hc, by cases hh : j.secret <;> simp_all⟩
+            · rw [if_neg hc] at h; cases h
+  obtain ⟨kt, a, hf, hp, ha, hc, hs⟩ := facts
+  have e : insertS s j = KeyStore.insert s j := by
+    unfold insertS KeyStore.insert
+    simp [hf, hp, ha, hc, hs, c, Gen.C15.shInsertRequiresPrivate, Gen.C15.shInsertRequiresAlg,
+      Gen.C15.shInsertExpandsSecret, Gen.C15.insertRequiresPrivate, Gen.C15.insertRequiresAlg]
+  rw [e] at h
+  obtain ⟨x, y, z⟩ := insert_spec s j id h
+  refine ⟨x, y, z, ?_, e⟩
+  cases hh : j.secret with
+  | none => rw [hh] at hs; simp at hs
+  | some _ => rfl
+
+/-- **Stronghold `delete` of a key id that is not stored fails** (never issued or already deleted), and otherwise it is the
+in-memory store's `delete`.  Needs the regenerated fact that `delete` tests existence first: the vault's own
+`delete_secret` reports success for any record id once the vault exists. -/
+theorem deleteS_eq_delete (s : Store) (id : Nat) : deleteS s id = delete s id := by
+  unfold deleteS delete
+  cases lookup s id with
+  | some _ => rfl
+  | none =>
+    have : Gen.C15.shDeleteChecksExistence = true := rfl
+    simp only [this, ↓reduceIte]
+
+theorem deleteS_absent (s : Store) (id : Nat) (h : lookup s id = none) : (deleteS s id).2 = .error .keyNotFound := by
+  rw [deleteS_eq_delete]; unfold delete; rw [h]
+
+/-- **Stronghold `generate`** is the in-memory `generate` wherever it succeeds -/
+theorem generateS_spec (s : Store) (hi : Inv s) (kt : KType) (a : Alg) (o : GenOut) (h : (generateS s kt a).2 = .ok o) :
+    generateS s kt a = generate s kt a ∧ kt = .ed25519 ∧ a = .edDSA ∧ lookup s o.id = none ∧ o.isPublic = true ∧
+      o.kidIsThumbprint = true ∧ o.alg = a := by
+  have c : ∀ k b, shCompatible k b = compatible k b := fun _ _ => rfl
+  have e : generateS s kt a = generate s kt a := by
+    unfold generateS generate
+    rw [c]
+    by_cases h1 : kt = .other
+    · rw [if_pos h1, if_pos h1]
+    · rw [if_neg h1, if_neg h1]
+      by_cases h2 : (!compatible kt a) = true
+      · rw [if_pos h2, if_pos h2]
+      · rw [if_neg h2, if_neg h2]
+        by_cases h3 : kt ≠ .ed25519
+        · exfalso
+          unfold generateS at h
+          rw [c, if_neg h1, if_neg h2, if_pos h3] at h
+          cases h
+        · rw [if_neg h3, if_neg h3]; rfl
+  rw [e] at h
+  obtain ⟨g1, g2, g3, g4, g5, g6, _⟩ := generate_spec s hi kt a o h
+  exact ⟨e, g1, g2, g3, g4, g5, g6⟩
+
 /-! ## non-vacuity -/
 
 deriving instance DecidableEq for Except
